@@ -153,7 +153,13 @@ def check_cell(rec, W, cell):
         cbs.append(c)
         r.call_on_close(lambda c=c: c.__setitem__(0, c[0] + 1))
     if inspect and kind not in ("fw", "wrapfile"):
-        r.calculate_content_length()
+        n = r.calculate_content_length()
+        if n is not None and n != len(expected):
+            rec.violation("C05/H2-calculate_content_length-wrong", f"{cell}: calculate_content_length() = {n}, body is {len(expected)} bytes", case, monitor="H2")
+            return
+        if ncb == 2 and cl is None:
+            # what a conditional response does before it is served (stores the computed length as a header)
+            r.make_conditional(env)
     it, st, hd = r.get_wsgi_response(env)
     data = b"".join(it)
     if hasattr(it, "close"):
@@ -220,9 +226,26 @@ DIRTY = ["a\rb", "a\nb", "a\r\nb", "\n", "x\r"]
 
 
 def mutators(val, val2):
-    from werkzeug.datastructures import MultiDict
+    from werkzeug.datastructures import EnvironHeaders, Headers, MultiDict
+
+    def env_headers():
+        # a headers view whose values were never validated (they come straight from the WSGI environ)
+        return EnvironHeaders({"HTTP_X": val, "HTTP_Y": val2})
+
+    class RawHeaders(Headers):
+        pass
+
+    def raw_headers():
+        h = RawHeaders()
+        h._list.append(("X", val))  # e.g. unpickled / built by a subclass
+        return h
 
     return {
+        "extend_environ_headers": lambda h: h.extend(env_headers()),
+        "update_environ_headers": lambda h: h.update(env_headers()),
+        "extend_headers_obj": lambda h: h.extend(raw_headers()),
+        "update_headers_obj": lambda h: h.update(raw_headers()),
+        "ior_headers_obj": lambda h: h.__ior__(raw_headers()),
         "add": lambda h: h.add("X", val),
         "add_kw": lambda h: h.add("X", "v", p=val),
         "add_header": lambda h: h.add_header("X", val),
@@ -246,7 +269,7 @@ def mutators(val, val2):
     }
 
 
-CTORS = ["headers_list", "headers_dict", "resp_dict", "resp_list", "resp_kwargs"]
+CTORS = ["headers_list", "headers_dict", "resp_dict", "resp_list", "resp_kwargs", "headers_from_environ_headers", "headers_copy_of_raw"]
 
 
 def construct(name, val):
@@ -263,6 +286,18 @@ def construct(name, val):
         return Response(headers=[("A", "1"), ("X", val)]).headers
     if name == "resp_kwargs":
         return Response(content_type=val, mimetype=None, headers={"A": "1"}).headers
+    if name == "headers_from_environ_headers":
+        from werkzeug.datastructures import EnvironHeaders
+
+        return Headers(EnvironHeaders({"HTTP_X": val, "HTTP_A": "1"}))
+    if name == "resp_from_environ_headers":
+        from werkzeug.datastructures import EnvironHeaders
+
+        return Response(headers=EnvironHeaders({"HTTP_X": val, "HTTP_A": "1"})).headers
+    if name == "headers_copy_of_raw":
+        h = Headers()
+        h._list.append(("X", val))
+        return Headers(h)
     raise AssertionError(name)
 
 
